@@ -327,7 +327,9 @@ async fn zero_window_refusal(id: u64) -> Out {
 
 /// The stalled topic's publishers all live on one client connection (a publisher `duplicate()`d many times):
 /// that very client must still be able to use another topic through the same connection.
-async fn same_connection_publishers(n_pubs: usize, id: u64) -> Out {
+/// `finish_blocked`: one of the blocked publishers is being finished (its `finish()` cannot complete while the topic is
+/// stalled and the application keeps waiting for it) when the same client turns to topic B
+async fn same_connection_publishers(n_pubs: usize, id: u64, finish_blocked: bool) -> Out {
     let certs = match gen_certs() {
         Ok(c) => c,
         Err(e) => return Out::Inconclusive(format!("certs: {e}")),
@@ -400,6 +402,17 @@ async fn same_connection_publishers(n_pubs: usize, id: u64) -> Out {
     if blocked < n_pubs {
         return Out::Inconclusive(format!("precondition not reached: only {} of {} publishers blocked", blocked, n_pubs));
     }
+    let finishing = if finish_blocked {
+        let h = keep.pop().map(|p| {
+            tokio::spawn(async move {
+                let _ = p.finish().await;
+            })
+        });
+        tokio::time::sleep(Duration::from_millis(300)).await;
+        h
+    } else {
+        None
+    };
     // topic B through the SAME client connection
     let t1 = Instant::now();
     let fut = async {
@@ -418,12 +431,16 @@ async fn same_connection_publishers(n_pubs: usize, id: u64) -> Out {
     let took = t1.elapsed().as_millis();
     server.stop();
     drop(keep);
+    if let Some(h) = finishing {
+        h.abort();
+    }
+    let suffix = if finish_blocked { "/while-finishing-a-blocked-publisher" } else { "" };
     match res {
         Ok(Ok(())) => Out::Held { b_roundtrip_ms: took, queued_ok: 0 },
-        Ok(Err(e)) => Out::Violated("other-topic-failed/same-connection".into(), format!("{} publisher streams of the stalled topic on one client connection ({} × 64 KiB accepted before they blocked); the same client could not use topic B: {}", n_pubs, total, e)),
+        Ok(Err(e)) => Out::Violated(format!("other-topic-failed/same-connection{}", suffix), format!("{} publisher streams of the stalled topic on one client connection ({} × 64 KiB accepted before they blocked); the same client could not use topic B: {}", n_pubs, total, e)),
         Err(_) => Out::Violated(
-            "other-topic-blocked/same-connection".into(),
-            format!("{} publisher streams of the stalled topic on one client connection ({} × 64 KiB accepted before they all blocked); the same client did not complete open + round trip on topic B through that connection within 12 s", n_pubs, total),
+            format!("other-topic-blocked/same-connection{}", suffix),
+            format!("{} publisher streams of the stalled topic on one client connection ({} × 64 KiB accepted before they all blocked){}; the same client did not complete open + round trip on topic B through that connection within 12 s", n_pubs, total, if finish_blocked { ", finish() of one of them in progress" } else { "" }),
         ),
     }
 }
@@ -484,15 +501,15 @@ pub fn run(rep: &mut StageReport, tier: &str, _seed: u64) {
             Err(_) => rep.inconclusive("watchdog: zero-window scenario did not finish within 90 s"),
         }
     }
-    for (k, n_pubs) in (if thorough { vec![4usize, 10, 16] } else { vec![10usize] }).into_iter().enumerate() {
+    for (k, (n_pubs, finishing)) in (if thorough { vec![(4usize, false), (10, false), (16, false), (1, true), (3, true), (10, true)] } else { vec![(10usize, false), (2, true)] }).into_iter().enumerate() {
         rep.evaluations += 1;
         let rt = runtime(6);
-        let out = rt.block_on(async { tokio::time::timeout(Duration::from_secs(150), same_connection_publishers(n_pubs, 200 + k as u64)).await });
+        let out = rt.block_on(async { tokio::time::timeout(Duration::from_secs(150), same_connection_publishers(n_pubs, 200 + k as u64, finishing)).await });
         drop(rt);
         match out {
             Ok(Out::Held { b_roundtrip_ms, .. }) => {
-                rep.distinct.insert(crate::common::mix(0x5A3E, n_pubs as u64));
-                rep.sample(json!({"scenario": format!("{} blocked publisher streams of the stalled topic on one client connection; topic B used through the same connection", n_pubs), "topic_B_round_trip_ms": b_roundtrip_ms as u64}));
+                rep.distinct.insert(crate::common::mix(0x5A3E + finishing as u64, n_pubs as u64));
+                rep.sample(json!({"scenario": format!("{} blocked publisher streams of the stalled topic on one client connection{}; topic B used through the same connection", n_pubs, if finishing { ", one of them being finished" } else { "" }), "topic_B_round_trip_ms": b_roundtrip_ms as u64}));
             }
             Ok(Out::Violated(sig, detail)) => {
                 let replay = write_replay("C17", &sig, n_pubs as u64, json!({"property": "C17", "detail": detail}));
